@@ -19,7 +19,7 @@
 From Coq Require Import ZArith List Bool String.
 From V Require Import Base.Int Base.IO Base.Utf8 Model.Scan Model.Rfc3339 Model.Parse Model.FromStr Model.Show Model.DateTime
   Spec.Gregorian Proofs.Scan Proofs.Decimal Proofs.C09Show Proofs.C09Time Proofs.C09Date Proofs.C09DateTime Proofs.C09Zoned
-  Proofs.C09Shape Proofs.C09Holds Proofs.C09 Model.C09.
+  Proofs.C09Shape Proofs.C09Holds Proofs.C09Edge Proofs.C09EdgeRead Proofs.C09HoldsAll Proofs.C09 Model.C09.
 From V Require Model.C19 Model.Parsed Model.Date Model.Time Judge.C09 Proofs.Date.
 Import ListNotations.
 Open Scope Z_scope.
@@ -124,6 +124,7 @@ Theorem C09_shape_fixed_offset : forall off, -86400 < off < 86400 -> off mod 60 
   to_text (fixed_debug [] off) = Val (Judge.C09.offset_text off) /\ to_text (fixed_display [] off) = Val (Judge.C09.offset_text off).
 Proof. exact shape_fixed_offset. Qed.
 Print Assumptions C09_shape_fixed_offset.
+(* (superseded by C09_shape_dt_full below, which drops the hypothesis on the wall-clock date) *)
 Theorem C09_shape_dt : forall yu ou du su fu off utc, repr yu ou du -> time_dom (Time.mk_time su fu) ->
   -86400 < off < 86400 -> off mod 60 = 0 ->
   dn_in_range (dn_of_yo yu ou + (su + off) / 86400) = true ->
@@ -215,3 +216,119 @@ Print Assumptions C09_ex_time.
 Example C09_ex_dtz : dtz_dom (mk_dtz (mk_ndt (mkdate 2016 366) (Time.mk_time 86399 1500000000)) (-34200)).
 Proof. exact ex_dtz. Qed.
 Print Assumptions C09_ex_dtz.
+
+(** * full-strength printed form of DateTime<FixedOffset> / DateTime<Utc>: every represented UTC date,
+    every time of the domain, every whole-minute offset -- NO condition on the wall-clock date (on the
+    first / last day of the range the writer prints the sentinel dates "-262144-12-31" /
+    "+262143-01-01", which are the judge's wall-clock reading).  Supersedes [C09_shape_dt]. *)
+Theorem C09_shape_dt_full : forall yu ou du su fu off utc, repr yu ou du -> time_dom (Time.mk_time su fu) ->
+  -86400 < off < 86400 -> off mod 60 = 0 ->
+  let a := mk_dtz (mk_ndt du (Time.mk_time su fu)) off in
+  let '(ly, lo, ls) := Judge.C09.wall yu ou su off in
+  to_text (dtz_debug utc [] a) =
+    Val (Judge.C09.date_text ly lo ++ B"T" ++ Judge.C09.time_text ls fu ++ (if utc then B"Z" else Judge.C09.offset_text off)) /\
+  to_text (dtz_display utc [] a) =
+    Val (Judge.C09.date_text ly lo ++ B" " ++ Judge.C09.time_text ls fu ++ B" " ++ (if utc then B"UTC" else Judge.C09.offset_text off)).
+Proof. exact shape_dtz_full. Qed.
+Print Assumptions C09_shape_dt_full.
+(* Weekday (Display and derived Debug) and Month (derived Debug; model value = discriminant 0..11):
+   the printed names are the judge's English names *)
+Theorem C09_shape_weekday : forall w, 0 <= w <= 6 ->
+  to_text (wd_display [] w) = Val (nth (Z.to_nat w) Judge.C09.weekday_names []) /\
+  to_text (wd_debug [] w) = Val (nth (Z.to_nat w) Judge.C09.weekday_names []).
+Proof. exact shape_weekday. Qed.
+Print Assumptions C09_shape_weekday.
+Theorem C09_shape_month : forall m, 0 <= m <= 11 ->
+  to_text (mo_debug [] m) = Val (nth (Z.to_nat m) Judge.C09.month_names []).
+Proof. exact shape_month. Qed.
+Print Assumptions C09_shape_month.
+
+(** * every dispatcher op (coverage/OPS_THEOREMS_C09.md) *)
+Theorem C09_dispatch : forall args,
+  run (B"tx.show") args =
+    match args with
+    | [VInt ty; VInt form; v] => match show ty form v with Some r => val_of_R VStr r | None => VBad end
+    | _ => VBad end /\
+  run (B"tx.parse") args =
+    match args with
+    | [VInt ty; VStr s] => if utf8_valid s then match parse_text ty s with Some o => o | None => VBad end else VBad
+    | _ => VBad end /\
+  run (B"tx.rt") args =
+    match args with
+    | [VInt ty; VInt form; v] =>
+        match show ty form v with
+        | Some (Val s) => match parse_text ty s with Some o => o | None => VBad end
+        | Some Panic => VPanic
+        | Some OutOfFuel => VFuel
+        | None => VBad
+        end
+    | _ => VBad end.
+Proof. exact dispatch. Qed.
+Print Assumptions C09_dispatch.
+(* tx.rt is tx.parse applied to the text of tx.show, for every type, form and value *)
+Theorem C09_rt_is_parse_of_show : forall ty form v t,
+  run (B"tx.show") [VInt ty; VInt form; v] = VStr t -> utf8_valid t = true ->
+  run (B"tx.rt") [VInt ty; VInt form; v] = run (B"tx.parse") [VInt ty; VStr t].
+Proof. exact rt_is_parse_of_show. Qed.
+Print Assumptions C09_rt_is_parse_of_show.
+
+(** * C09_holds: the property as the independent judge states it (Judge/C09.v: the documented shapes
+    over Spec/Gregorian.v; imports nothing of the model) holds of the model on EVERY case line of all
+    three ops and all eight types -- whenever the judge has an opinion it accepts the model's output --
+    except exactly the case lines of the two recorded findings ([known_finding]: op tx.rt of a
+    NaiveDateTime in Display form; op tx.rt of a DateTime<FixedOffset> whose wall-clock date is outside
+    the range of NaiveDate).  On EVERY one of those the model gives the implementation's error and the
+    judge says bad ([C09_finding_ndt_display]: err:Invalid; [C09_finding_wall_clock]: err:OutOfRange,
+    both forms), and [C09_wall_ok_false_iff] shows that the second exclusion is exactly the recorded
+    matcher.  tx.show is NOT excluded on those values: the printed form is the
+    documented one there too. *)
+Theorem C09_holds : forall op args, known_finding op args = false ->
+  Judge.C09.judge op args (run op args) <> JSkip -> Judge.C09.judge op args (run op args) = JOk.
+Proof. exact C09_holds. Qed.
+Print Assumptions C09_holds.
+Theorem C09_finding_ndt_display : forall y o s f,
+  Judge.C09.valid_date y o = true -> Judge.C09.valid_time s f = true -> Judge.C09.time_in_domain s f = true ->
+  let args := [VInt 2; VInt 0; VTup [VInt y; VInt o; VInt s; VInt f]] in
+  known_finding B"tx.rt" args = true /\ run B"tx.rt" args = VErr B"Invalid" /\
+  exists why, Judge.C09.judge B"tx.rt" args (run B"tx.rt" args) = JBad why.
+Proof. exact C09_finding_ndt_display. Qed.
+Print Assumptions C09_finding_ndt_display.
+(* the second finding, universally (value level, then dispatcher level): every DateTime<FixedOffset> of the
+   domain whose wall-clock date is outside the range of NaiveDate prints, in both forms, a text that
+   DateTime::from_str refuses with OutOfRange.  Generalises the witness [C09_dt_wall_clock_refuted]. *)
+Theorem C09_wall_clock_refused : forall yu ou du su fu off, repr yu ou du -> time_dom (Time.mk_time su fu) ->
+  -86400 < off < 86400 -> off mod 60 = 0 ->
+  dn_in_range (dn_of_yo yu ou + (su + off) / 86400) = false ->
+  let a := mk_dtz (mk_ndt du (Time.mk_time su fu)) off in
+  (exists s, to_text (dtz_debug false [] a) = Val s /\ datetime_fixed_from_str s = Val (PErr Scan.OutOfRange)) /\
+  (exists s, to_text (dtz_display false [] a) = Val s /\ datetime_fixed_from_str s = Val (PErr Scan.OutOfRange)).
+Proof. exact wall_clock_refused. Qed.
+Print Assumptions C09_wall_clock_refused.
+Theorem C09_finding_wall_clock : forall y o s f off form,
+  Judge.C09.valid_date y o = true -> Judge.C09.valid_time s f = true ->
+  Judge.C09.time_in_domain s f = true -> Judge.C09.valid_offset off = true -> off mod 60 = 0 -> form_ok form ->
+  wall_ok y o s off = false ->
+  let args := [VInt 3; VInt form; VTup [VInt y; VInt o; VInt s; VInt f; VInt off]] in
+  known_finding B"tx.rt" args = true /\ run B"tx.rt" args = VErr B"OutOfRange" /\
+  exists why, Judge.C09.judge B"tx.rt" args (run B"tx.rt" args) = JBad why.
+Proof. exact C09_finding_wall_clock. Qed.
+Print Assumptions C09_finding_wall_clock.
+Theorem C09_wall_ok_false_iff : forall y o s off,
+  Judge.C09.valid_date y o = true -> 0 <= s < 86400 -> -86400 < off < 86400 ->
+  (wall_ok y o s off = false <->
+   (y = 262142 /\ o = 365 /\ 86400 <= s + off) \/ (y = -262143 /\ o = 1 /\ s + off < 0)).
+Proof. exact wall_ok_false_iff. Qed.
+Print Assumptions C09_wall_ok_false_iff.
+(* not vacuous: a leap-second DateTime<FixedOffset> on tx.show / tx.rt, its text on tx.parse; and a value of
+   the second finding: tx.show accepted, tx.rt excluded with the implementation's err:OutOfRange *)
+Example C09_holds_inhabited :
+  (let a := [VInt 3; VInt 0; VTup [VInt 2016; VInt 366; VInt 86399; VInt 1500000000; VInt (-34200)]] in
+   known_finding B"tx.show" a = false /\ Judge.C09.judge B"tx.show" a (run B"tx.show" a) = JOk /\
+   known_finding B"tx.rt" a = false /\ Judge.C09.judge B"tx.rt" a (run B"tx.rt" a) = JOk) /\
+  (let a := [VInt 3; VStr (B"2016-12-31T14:29:60.500-09:30")] in
+   known_finding B"tx.parse" a = false /\ Judge.C09.judge B"tx.parse" a (run B"tx.parse" a) = JOk) /\
+  (let a := [VInt 3; VInt 1; VTup [VInt 262142; VInt 365; VInt 86399; VInt 0; VInt 60]] in
+   known_finding B"tx.show" a = false /\ Judge.C09.judge B"tx.show" a (run B"tx.show" a) = JOk /\
+   known_finding B"tx.rt" a = true /\ run B"tx.rt" a = VErr B"OutOfRange").
+Proof. exact holds_examples. Qed.
+Print Assumptions C09_holds_inhabited.
